@@ -228,6 +228,18 @@ func c02test(vs []gen.Variant) (kind, what, detail, printed string) {
 		if y2 != y {
 			return "not-a-fixpoint/" + sp.name, "print(parse(y)) differs from y", firstDiff(y, y2), y
 		}
+		if sp.name == "plain" {
+			// the translator iterates over Go maps: an order that leaks into the output shows
+			// in some parses only, so y is read three more times (C12 explores the orders).
+			for rep := 0; rep < 3; rep++ {
+				if m3, e3, p3 := parseTry(y); e3 == "" && p3 == "" {
+					var y3 string
+					if p := fw.Try(func() { y3 = m3.String() }); p == "" && y3 != y {
+						return "not-a-fixpoint/" + sp.name, "print(parse(y)) differs from y in one of several parses", firstDiff(y, y3), y
+					}
+				}
+			}
+		}
 		if d1, d2 := irwalk.Digest(m1), irwalk.Digest(m2); d1 != d2 {
 			return "structure-differs/" + sp.name, "parse(x) and parse(print(parse(x))) are not structurally identical", firstDiff(irwalk.Dump(m1), irwalk.Dump(m2)), y
 		}
